@@ -92,7 +92,8 @@ MonInit(p) ==
       cs |-> cs,                 \* per definition: its permitted orders as code strings
       win |-> maxlen + (IF "slack" \in DOMAIN p THEN p.slack ELSE 8),    \* S2 window: presses that may arrive meanwhile
       sync |-> TRUE,             \* sharp zone
-      pend |-> <<>>,             \* inputs (and virtual-key events) not yet processed, in order
+      pend |-> <<>>,             \* inputs <<"d"|"u", code>> and virtual-key events <<"vd", definitions>>, <<"vu", 0>>
+                                 \* not yet processed, in order
       phys |-> {},               \* keys physically down (inputs seen)
       held |-> {},               \* keys whose press has been processed and whose release has not
       stale |-> {},              \* keys consumed by a completed sequence that are still down
@@ -171,7 +172,7 @@ C12Press(m0, c) ==
           \* table is prefix-free): whether the shorter one fires now or when the keys go up is not documented
           THEN [m |-> mt, expK |-> <<>>, expB |-> 0, soft |-> TRUE]
           ELSE IF ex # {}
-          THEN [m |-> [C12Leave(mt) EXCEPT !.owed = ex, !.pend = @ \o <<<<"vd", 0>>, <<"vu", 0>>>>,
+          THEN [m |-> [C12Leave(mt) EXCEPT !.owed = @ \cup ex, !.pend = @ \o <<<<"vd", ex>>, <<"vu", 0>>>>,
                                            !.stale = @ \cup ({codes[i] : i \in DOMAIN codes} \cap m.held)],
                 expK |-> shown,
                 expB |-> IF vis THEN Cardinality({i \in DOMAIN ty : ~C12IsMod(ty[i].c)}) ELSE 0,
@@ -227,7 +228,9 @@ MonTick(m, out, idle, cb) ==
                                [m |-> r.m, expK |-> r.expK, expB |-> r.expB, soft |-> r.soft, vk |-> FALSE]
                     [] ev[1] = "u" /\ ev[2] # m.p.ldr ->
                           [m |-> C12Release(m1, ev[2]), expK |-> <<>>, expB |-> 0, soft |-> FALSE, vk |-> FALSE]
-                    [] ev[1] = "vd" -> [m |-> m1, expK |-> <<>>, expB |-> 0, soft |-> FALSE, vk |-> TRUE]
+                    \* the virtual key's own output is a key press like any other: if the mode is on again by now
+                    \* (a key typed within a tick or two of the completing one) it lands in the new sequence - not documented
+                    [] ev[1] = "vd" -> [m |-> m1, expK |-> <<>>, expB |-> 0, soft |-> m1.act, vk |-> TRUE]
                     [] OTHER -> [m |-> m1, expK |-> <<>>, expB |-> 0, soft |-> FALSE, vk |-> FALSE]
              \* 2. the timeout: T ticks after the last typed key (or the leader)
              m2 == IF ev[1] \in {"d", "u"} THEN [st.m EXCEPT !.tapped = {}] ELSE st.m
@@ -244,7 +247,7 @@ MonTick(m, out, idle, cb) ==
             \* ---- judgement of this tick's output
             ELSE IF st.vk /\ Len(vdowns) = 0
             THEN Fail(m3, "C12 S1: the typed sequence did not tap its virtual key")
-            ELSE IF st.vk /\ (Len(vdowns) > 1 \/ \A d \in m2.owed : m2.p.defs[d].out # vdowns[1])
+            ELSE IF st.vk /\ (Len(vdowns) > 1 \/ \A d \in ev[2] : m2.p.defs[d].out # vdowns[1])
             THEN Fail(m3, "C12 S1: the virtual key of another sequence was tapped, or it was tapped more than once")
             ELSE IF ~st.vk /\ Len(vdowns) > 0
             THEN Fail(m3, IF m2.owed # {} \/ ev[1] = "vu" \/ vdowns[1] \in m1.tapped
@@ -262,7 +265,7 @@ MonTick(m, out, idle, cb) ==
             THEN Fail(m3, "C12 S4: visible-backspaced must send exactly one backspace per non-modifier typed key on completion")
             ELSE IF idle /\ m3.act
             THEN Fail(m3, "C12 S3: kanata reports idle while the sequence mode should still be on (mode left early)")
-            ELSE LET m4 == IF st.vk THEN [m3 EXCEPT !.owed = {}, !.tapped = @ \cup {vdowns[1]}] ELSE m3 IN
+            ELSE LET m4 == IF st.vk THEN [m3 EXCEPT !.owed = @ \ ev[2], !.tapped = @ \cup {vdowns[1]}] ELSE m3 IN
                  m4
 
 RECURSIVE MonSilent(_, _, _, _)
